@@ -61,6 +61,7 @@ struct Result {
   std::string exWhat;
   // growth accounting of APPEND_LOOP
   unsigned growEvents = 0; uint64_t relocs = 0; size_t appended = 0;
+  size_t growBadFrom = 0, growBadTo = 0;  // a growth step of APPEND_LOOP below the constant factor (capacity before / after)
   bool streamReadAfterEof = false, streamReread = false;
   long retCount = -1;        // erase / erase_if count
 };
